@@ -428,3 +428,10 @@ Theorem c09_ok_callback_is_whole_input :
               x_s x = s /\ x_cb x = inp /\ bdata (x_b x) = [] /\ x_in x = [].
 Proof. exact ok_callback_whole_thm. Qed.
 Print Assumptions c09_ok_callback_is_whole_input.
+
+(* [trim_nl] (what parse_more keeps of data(), c09_data_is_the_lines / c09_amounts_from_bytes) is what the head of
+   SymbolParser::parse_more says: translate/c09_circular_mem.py reads off which newline is searched (`rposition`), what is kept
+   (`&input[..idx + 1]`) and what is returned without a newline (`Ok(0)`); rebuilt from those, the slice is [trim_nl]. *)
+Theorem c09_trim_is_source : forall d, PinsMem.trim_src d = trim_nl d.
+Proof. exact PinsMem.pin_trim. Qed.
+Print Assumptions c09_trim_is_source.
